@@ -209,9 +209,10 @@ def _is_model_cond(c):
         return False
 
 
-def _orch_facts(orch):
+def _orch_facts(orch, helper_mods=()):
     state = {"nest": [], "start": None}
-    ctx = Ctx(orch, "Orchestrator", primitives={"fit", "predict", "fit_predict"}, hook=_orch_hook(state))
+    ctx = Ctx(orch, "Orchestrator", primitives={"fit", "predict", "fit_predict"}, hook=_orch_hook(state),
+              helper_mods=helper_mods)
     ex = Exec(ctx, _orch_binder(state))
     fn = ctx.method("fit_predict")
     params, _ = _params(fn, True)
@@ -390,6 +391,8 @@ def subst(t, m):
         return t
     if t in m:
         return m[t]
+    if t and t[0] == "fstr":                  # keep string concatenations in normal form
+        return symexec_c19.mk_concat([subst(x, m) for x in t[1]])
     return tuple(subst(x, m) for x in t)
 
 
@@ -728,7 +731,7 @@ def translate(repo):
     for rel in (ORCH, RES, BASE):
         with open(os.path.join(repo, rel)) as fh:
             mods[rel] = ast.parse(fh.read())
-    fp = _orch_facts(mods[ORCH])
+    fp = _orch_facts(mods[ORCH], [mods[BASE], mods[RES]])
     it = fp
     wsig = _wrapper_sig(mods[BASE])
     hdd = _hdd_facts(mods[RES], wsig, [(mods[BASE], "HDDBaseResults"), (mods[BASE], "BaseResults")])
